@@ -101,12 +101,16 @@ class X509(object):
         # Finally get the (hash, signature) pair coresponding to it
         # If it is rsa-pss we need to check the aditional parameters field
         # to extract the hash algorithm
-        if self.sigalg == RSA_PSS_OID:
-            sigalg_hash = signature_algorithm_identifier.getChild(1)
-            sigalg_hash = bytes(sigalg_hash.getChild(0).value)
-            self.sigalg = AlgorithmOID.oid[sigalg_hash]
-        else:
-            self.sigalg = AlgorithmOID.oid[self.sigalg]
+        try:
+            if self.sigalg == RSA_PSS_OID:
+                sigalg_hash = signature_algorithm_identifier.getChild(1)
+                sigalg_hash = bytes(sigalg_hash.getChild(0).value)
+                self.sigalg = AlgorithmOID.oid[sigalg_hash]
+            else:
+                self.sigalg = AlgorithmOID.oid[self.sigalg]
+        except KeyError:
+            raise SyntaxError("Unrecognized signature algorithm in "
+                              "certificate")
 
         # Get the tbsCertificate
         tbs_certificate = parser.getChild(0)
